@@ -79,6 +79,22 @@ CLAIMED = {
             "rejected; real build_command_list compared on generated scripts/files/near-miss words and build_tool checked to exit before connecting",
             "ASCII; float() validity and int() modelled; delay pauses compared exactly by the harness",
             "Coq proof (induction over command lists, controlled evaluation of the word tests) + differential correspondence"),
+    "C17": ("Coq model of loggingproxy.RFBServer (handshake skipping, framing table, per-message handlers incl. the awaited "
+            "SetEncodings list / cut text / QEMU key) and of the recorder formatting, time in ticks of 1e-4 s; theorems about that "
+            "model (see Properties/C17.v); the real VNCLoggingServerProxy is run under a virtual clock on generated viewer sessions "
+            "(3.3/3.7/3.8, None / VNC auth / --password-required, all seven message kinds) delivered message-wise, byte-wise, whole, "
+            "with a cut inside every message and at random cuts, and judged against the events the viewer sent: one entry per event, "
+            "in order, written during the chunk that completes the message, pause = time since the previous recorded event",
+            "keysyms without a script representation (CR, surrogates, > 0x10FFFF) are the open C16/C18 findings; timestamps are virtual",
+            "Coq proof over the parser/recorder model + regenerated TYPE_LEN/REVERSE_MAP/formats + differential correspondence"),
+    "C16": ("Coq model of the viewer-side parser (Model/Recorder.v) and of the logging client (= library client model started at "
+            "ServerInit); theorems about the parser model (see Properties/C16.v); the real proxy pair is driven on in-memory "
+            "transports with causal interleavings of both directions cut at random: after every chunk each leg must have received "
+            "exactly the bytes sent so far and nothing may raise; several connections on one factory (shared stream, per-connection "
+            "files); the parser and the logging client are compared with the Coq models",
+            "portforward back-pressure not exercised; open findings: keysym > 0x10FFFF, viewer-selected pixel format, concurrent "
+            "--forever connections, and the two ZRLE decoder findings of C02",
+            "Coq proof over the parser model + differential correspondence of both legs"),
 }
 NOT_YET = "check not built yet in this session (planned Coq model in DESIGN.md §3); not claimed"
 
